@@ -298,7 +298,7 @@ func genChainOp(t *rapid.T, healthyPossible bool) chainOp {
 	// curated unambiguous misuses: an error is required
 	case 17:
 		col := "never-created-col"
-		k := rapid.IntRange(0, 8).Draw(t, "unknowncol")
+		k := rapid.IntRange(0, 10).Draw(t, "unknowncol")
 		ops := []chainOp{
 			{desc: "Filter on unknown column", run: func(qf qframe.QFrame) qframe.QFrame {
 				return qf.Filter(qframe.Filter{Column: col, Comparator: "=", Arg: 1})
@@ -314,6 +314,12 @@ func genChainOp(t *rapid.T, healthyPossible bool) chainOp {
 			}},
 			{desc: "Aggregate unknown column", run: func(qf qframe.QFrame) qframe.QFrame {
 				return qf.GroupBy(groupby.Columns("i1")).Aggregate(qframe.Aggregation{Fn: "sum", Column: col})
+			}},
+			{desc: "Aggregate count of an unknown column", run: func(qf qframe.QFrame) qframe.QFrame {
+				return qf.GroupBy().Aggregate(qframe.Aggregation{Fn: "count", Column: col, As: "n"})
+			}},
+			{desc: "Aggregate user function on an unknown column", run: func(qf qframe.QFrame) qframe.QFrame {
+				return qf.GroupBy().Aggregate(qframe.Aggregation{Fn: func(x []int) int { return len(x) }, Column: col})
 			}},
 			{desc: "Distinct on unknown column", run: func(qf qframe.QFrame) qframe.QFrame { return qf.Distinct(groupby.Columns(col)) }},
 			{desc: "Eval with unknown column", run: func(qf qframe.QFrame) qframe.QFrame {
